@@ -228,10 +228,15 @@ func ParseMessage(reader *bufio.Reader) (*Message, error) {
 	if contentLength < 0 {
 		return nil, errors.New("invalid negative Content-Length field")
 	}
-	msg.body = make([]byte, contentLength)
-	if _, err = io.ReadFull(reader, msg.body); err != nil {
+	// grow the body while reading instead of trusting the declared length
+	body := bytes.NewBuffer(make([]byte, 0))
+	if n, err := io.CopyN(body, reader, int64(contentLength)); err != nil {
+		if err == io.EOF && n > 0 {
+			err = io.ErrUnexpectedEOF
+		}
 		return nil, err
 	}
+	msg.body = body.Bytes()
 	return msg, nil
 }
 
